@@ -13,6 +13,7 @@ export CARGO_NET_OFFLINE=true
 if [ ! -d "$WT" ]; then git -C /repo worktree add --detach "$WT" HEAD >/dev/null 2>&1 || exit 2; fi
 cd "$WT" || exit 2
 git checkout -q -- . && git clean -fdq -e target
+git checkout -q --detach "$(git -C /repo rev-parse HEAD)" || exit 2     # always the current HEAD of /repo
 # where does the demo go?
 first="$(head -3 "$D/demo.rs")"
 crate=serde_avro_fast
